@@ -27,7 +27,9 @@ BOUNDS = {
              "status 6 x 0..3 extended words over 3 values; typed data 0..3 elements x 14 types; every request / reply "
              "template with <=2 fields off nominal; bundles of 1..3 members over 8 member kinds; CPF of 0..3 items over "
              "8 item kinds + every item with <=2 fields off nominal; frames/commands <=2 off nominal; composite frames "
-             "(plain / Unconnected Send / connected) x 29 services with d<=1; NCP all bit-field combinations",
+             "(plain / Unconnected Send / connected) x 29 services with d<=1; NCP all bit-field combinations; Forward Open "
+             "requests produced from decoded connection parameters: 8x8 O_T/T_O sizes x 3 flag sets x service "
+             "{deduced, 0x54, 0x5B}",
     "thorough": "as quick, EPATH sequences of <=4 segments (1376830) and composite frames with d<=2; one 65535-byte frame",
 }
 ASSUMPTIONS = [
@@ -985,6 +987,9 @@ def guards(acc, ctx):
     for elem in ("frame", "command", "CPF", "message", "ncp"):
         if not acc.outcomes.get(elem + ":agree"):
             g.append("no agreeing case for element %s" % elem)
+    for shape in ("refused", "promoted", "uniform"):
+        if not acc.outcomes.get("fo-decoded:%s:agree" % shape):
+            g.append("no agreeing Forward Open from decoded parameters of shape %s" % shape)
     if acc.outcomes.get("out-of-range:refused", 0) < 80:
         g.append("fewer than 80 out-of-range values were refused")
     if acc.outcomes.get("EPATH:agree", 0) < (40000 if ctx.quick else 1300000):
@@ -1010,6 +1015,8 @@ def replay(case):
         bad = check_unsupported_epath(case["elem"], v)
     elif case["op"] == "ncp":
         bad = check_ncp(v)
+    elif case["op"] == "fo-decoded":
+        bad = check_fo_decoded(v)
     else:
         raise HarnessError("unknown replay op %r" % case.get("op"))
     return ["%s: %s" % b for b in bad]
@@ -1450,6 +1457,19 @@ def shard_encap(acc, item, tier, seed):
                     for kind, msg in bad:
                         acc.count("viol:" + kind)
                         acc.violation(kind, {"op": "ncp", "v": repr(v)}, msg)
+    elif what == "fo-decoded":
+        for v in fod_cases():
+            acc.ev()
+            acc.ntc()
+            bad = check_fo_decoded(v)
+            any_large = v["O_T"]["size"] > 0x1FF or v["T_O"]["size"] > 0x1FF
+            mixed = (v["O_T"]["size"] > 0x1FF) != (v["T_O"]["size"] > 0x1FF)
+            shape = "refused" if (v["service"] == 0x54 and any_large) else ("promoted" if mixed else "uniform")
+            acc.outcome("fo-decoded:%s:%s" % (shape, "agree" if not bad else "disagree"))
+            for kind, msg in bad:
+                acc.count("viol:" + kind)
+                acc.violation(kind, {"op": "fo-decoded", "v": repr(v)}, msg)
+        acc.sample({"elem": "forward_open from decoded parameters", "v": {"service": None, "O_T": {"size": 100}, "T_O": {"size": 4000}}})
     elif what == "messages":
         _, tname, is_reply, transport, k, K = item
         for v in sliced(message_cases(tname, is_reply, transport, d), k, K):
@@ -1461,7 +1481,7 @@ def shard_encap(acc, item, tier, seed):
 
 
 def encap_items(ctx):
-    items = [("frames",), ("commands",), ("usend",), ("ncp",), ("cpf-seq", None)]
+    items = [("frames",), ("commands",), ("usend",), ("ncp",), ("fo-decoded",), ("cpf-seq", None)]
     d = 1 if ctx.quick else 2
     for kind, (fields, _b) in item_templates().items():
         items += split(("items", kind), sum(1 for _ in deviations(fields, 2)))
@@ -1488,3 +1508,93 @@ def encap_items(ctx):
         for tr in trans:
             items += split(("messages", t, True, tr), sum(1 for _ in message_cases(t, True, tr, d)), 300)
     return items
+
+
+# ------------------------------------------------------------------------------------------------
+# Forward Open requests produced from DECODED connection parameters (the form cpppo's client builds)
+#
+# Documented rule (defaults.Connection docstring, Connection_Manager.produce comments): a connection given by its
+# parameters is Large when size > 0x1FF (or large=True is supplied, required for a Large connection that would also fit
+# the Small layout); if the service is not given it is deduced -- 0x5B when EITHER connection is Large, else 0x54 --
+# and BOTH connections are re-encoded in that one layout; an explicit 0x54 with a Large connection is refused
+# ("Forward Open service code incompatible with T_O or O_T connection size").
+
+FOD_SIZES = [1, 100, 510, 511, 512, 513, 4000, 65535]
+FOD_FLAGS = [((1, 0, 2, 0), (1, 0, 2, 0)), ((0, 3, 1, 1), (1, 2, 3, 0)), ((1, 1, 0, 0), (0, 0, 2, 1))]
+FOD_KEYS = ("size", "variable", "priority", "type", "redundant")
+FOD_FIXED = {"priority_time_tick": 5, "timeout_ticks": 157, "connection_serial": 0x1234, "O_vendor": 0x4321,
+             "O_serial": 0x87654321, "connection_timeout_multiplier": 1, "transport_class_triggers": 0xA3}
+FOD_PATH = [{"port": 1, "link": 0}, {"class": 2}, {"instance": 1}]
+
+
+def fod_cases():
+    for so, st in itertools.product(FOD_SIZES, repeat=2):
+        for fo, ft in FOD_FLAGS:
+            for svc in (None, 0x54, 0x5B):
+                yield {"service": svc, "O_T": dict(zip(FOD_KEYS, (so,) + fo)), "T_O": dict(zip(FOD_KEYS, (st,) + ft))}
+
+
+def check_fo_decoded(v):
+    L = A.lib()
+    CM = L.device.Connection_Manager
+    bad = []
+    any_large = v["O_T"]["size"] > 0x1FF or v["T_O"]["size"] > 0x1FF
+    want_svc = v["service"] if v["service"] is not None else (0x5B if any_large else 0x54)
+    refuse = v["service"] == 0x54 and any_large
+    large = want_svc == 0x5B
+
+    def conn(c, cid, rpi):
+        d = dict(c, connection_ID=cid, RPI=rpi)
+        if v["service"] == 0x5B and not any_large:
+            d["large"] = True            # the documented way to ask for a Large connection that fits the Small layout
+        return d
+    req = {"path": A.path_to_lib(R.CONNECTION_MANAGER),
+           "forward_open": dict(FOD_FIXED, O_T=conn(v["O_T"], 0x11111111, 2000000), T_O=conn(v["T_O"], 0x22222222, 1000000),
+                                connection_path=A.path_to_lib(FOD_PATH))}
+    if v["service"] is not None:
+        req["service"] = v["service"]
+
+    def add(oracle, msg):
+        bad.append(("%s:forward_open-from-decoded-parameters" % oracle, "[%s] forward open %r: %s" % (oracle, v, msg)))
+    try:
+        lb = bytes(CM.produce(A.dd(req)))
+    except Exception as exc:
+        if not refuse:
+            add("produce-exception", "produce raised %r" % (exc,))
+        return bad
+    if refuse:
+        add("silent-truncation", "explicit Small Forward Open with a connection size > 511 was produced: %s" % hx(lb))
+        return bad
+    ref = dict(FOD_FIXED, service=want_svc, path=R.CONNECTION_MANAGER, O_T_connection_ID=0x11111111,
+               T_O_connection_ID=0x22222222, O_T_RPI=2000000, T_O_RPI=1000000,
+               O_T_NCP=R.enc_ncp(v["O_T"], large), T_O_NCP=R.enc_ncp(v["T_O"], large), connection_path=FOD_PATH)
+    rb = R.enc_request(ref)
+    if R.dec_request(rb) != ref:
+        raise HarnessError("reference codec does not round-trip %r" % (ref,))
+    if lb != rb:
+        add("produce-differs", "produce -> %s, layout tables -> %s" % (hx(lb), hx(rb)))
+    try:
+        parsed, complete = A.run(CM.parser, rb)
+    except Exception as exc:
+        add("parse-exception", "parsing %s raised %r" % (hx(rb), exc))
+        return bad
+    if not complete:
+        add("parse-incomplete", "parser stopped early on %s" % hx(rb))
+        return bad
+    try:
+        if not same(A.req_project(parsed), ref):
+            add("parse-field-differs", "parsed %s from %s" % (short(A.req_project(parsed)), hx(rb)))
+        for side in ("O_T", "T_O"):
+            got = {k: parsed["forward_open"][side][k] for k in FOD_KEYS}
+            if got != v[side] or bool(parsed["forward_open"][side]["large"]) != large:
+                add("parse-field-differs", "%s decoded as %r (large=%r) from %s" % (
+                    side, got, parsed["forward_open"][side]["large"], hx(rb)))
+    except (KeyError, AttributeError, TypeError) as exc:
+        add("parse-field-missing", "field %r missing after parsing %s" % (exc, hx(rb)))
+    try:
+        rb2 = bytes(CM.produce(parsed))
+        if rb2 != rb:
+            add("reproduce-differs", "produce(parse(bytes)) -> %s, bytes were %s" % (hx(rb2), hx(rb)))
+    except Exception as exc:
+        add("reproduce-exception", "produce(parse(%s)) raised %r" % (hx(rb), exc))
+    return bad
